@@ -18,7 +18,7 @@ func alphabet(async bool, confs int) []Op {
 	} else {
 		ops = append(ops, Op{OpAdvance, 0})
 	}
-	ops = append(ops, Op{OpPropose, 0}, Op{OpCampaign, 0}, Op{OpTick, 0}, Op{OpReadIndex, 0})
+	ops = append(ops, Op{OpPropose, 0}, Op{OpProposeWait, 0}, Op{OpCampaign, 0}, Op{OpTick, 0}, Op{OpReadIndex, 0})
 	for i := 0; i < confs; i++ {
 		ops = append(ops, Op{OpProposeConf, i})
 	}
